@@ -77,7 +77,7 @@ PROPS = {
         "trusted_base": COMMON_TB,
         "assumptions": COMMON_ASSUME + [
             "leading_zeros / trailing_zeros are modelled by Nat.log2 and a recursive trailing-zero count",
-            "the cell view is proved at list level (cells_roundtrip, cells_cover, cells_normal_form, cells_injective); the cell-RANGE view, flat cells and the NUNIQ range iterators are tied by the correspondence and judged against the identity round trip (partial)"],
+            "the cell view, the cell-RANGE view and the flat cells are proved at list level (cells_roundtrip, cells_cover, cells_normal_form, cells_injective, cellranges_roundtrip, cellranges_cover, flat_cells_sem); the NUNIQ range iterators are tied by the correspondence and judged against the identity round trip (partial)"],
         "rule": "per (quantity,width): random dense/sparse cell sets over the whole-domain universe at Hpx depth 1 (48 cells: mixed depth-0/1 cells, full base cells) and "
                 "Time/Frequency depth 3 (16 cells), full and empty MOCs, boundary-biased random MOCs at all depths: cell view, cell-range view, flat cells, back to ranges, "
                 "round trips (cells, cell ranges, width through u64, NUNIQ ranges) against the identity; numbering schemes exhaustively for depths with <= 200 cells and "
